@@ -628,3 +628,145 @@ func runORD18(p *Prog, r *RuleRun) {
 		r.Fail(funcDisplay(open)+":recreate-missing-tail", p.Position(open.Pos()), "Open has no path on which a RecoverTail error that is os.ErrNotExist leads to SegmentFiler.Create: a tail file lost by a crash (metadata committed, directory entry not yet durable) makes the WAL unopenable")
 	}
 }
+
+// ---------------------------------------------------------------- ORD-18 (layer contract part)
+
+// errorPreserved: does the returned error value keep the identity of `cause` for errors.Is?
+// Accepted: the very same value, or fmt.Errorf with a constant format containing %w that receives it.
+func errorPreserved(ret ssa.Value, isCause func(v ssa.Value) bool, depth int) (bool, string) {
+	if depth > 4 || ret == nil {
+		return false, "too deep"
+	}
+	if isCause(ret) {
+		return true, "returned unchanged"
+	}
+	switch x := ret.(type) {
+	case *ssa.Phi:
+		for _, e := range x.Edges {
+			if ok, why := errorPreserved(e, isCause, depth+1); ok {
+				return true, why
+			}
+		}
+	case *ssa.ChangeInterface:
+		return errorPreserved(x.X, isCause, depth+1)
+	case *ssa.Call:
+		if eventName(x) != "fmt.Errorf" || len(x.Call.Args) != 2 {
+			return false, "wrapped by " + eventName(x)
+		}
+		format, ok := constStringOf(x.Call.Args[0])
+		if !ok || !strings.Contains(format, "%w") {
+			return false, fmt.Sprintf("re-created with fmt.Errorf(%q) without %%w: errors.Is no longer sees the cause", format)
+		}
+		// one of the variadic arguments must be the cause
+		if sl, ok := x.Call.Args[1].(*ssa.Slice); ok {
+			if arr, ok := sl.X.(*ssa.Alloc); ok {
+				for _, ref := range *arr.Referrers() {
+					if ia, ok := ref.(*ssa.IndexAddr); ok {
+						for _, r2 := range *ia.Referrers() {
+							if st, ok := r2.(*ssa.Store); ok {
+								v := st.Val
+								if ci, ok := v.(*ssa.ChangeInterface); ok {
+									v = ci.X
+								}
+								if mi, ok := v.(*ssa.MakeInterface); ok {
+									v = mi.X
+								}
+								if isCause(v) {
+									return true, "wrapped with %w"
+								}
+							}
+						}
+					}
+				}
+			}
+		}
+		return false, "fmt.Errorf with %w but not of the cause"
+	}
+	return false, "replaced by " + strings.TrimSpace(ret.String())
+}
+
+// returnedErrors lists, per return of fn, the SSA value that is returned as the error (resolving result cells).
+func returnedErrors(fn *ssa.Function) map[*ssa.Return]ssa.Value {
+	out := map[*ssa.Return]ssa.Value{}
+	ei := resultErrIndex(fn.Signature)
+	if ei < 0 {
+		return out
+	}
+	for _, b := range fn.Blocks {
+		for i, ins := range b.Instrs {
+			ret, ok := ins.(*ssa.Return)
+			if !ok {
+				continue
+			}
+			v := ret.Results[ei]
+			if u, ok := v.(*ssa.UnOp); ok && u.Op == token.MUL {
+				// result cell: the last store to it in this block
+				for j := i - 1; j >= 0; j-- {
+					if st, ok := b.Instrs[j].(*ssa.Store); ok && st.Addr == u.X {
+						v = st.Val
+						break
+					}
+				}
+			}
+			out[ret] = v
+		}
+	}
+	return out
+}
+
+func init() {
+	register(&Rule{ID: "ORD-18b", Title: "the 'tail file does not exist' error keeps its os.ErrNotExist identity from the file system up to Open's errors.Is test",
+		Props: []string{"C03", "C01"}, Floor: 2, Run: runORD18b})
+}
+
+func runORD18b(p *Prog, r *RuleRun) {
+	type layer struct {
+		fn    *ssa.Function
+		cause string // event name of the call whose error must be preserved
+	}
+	layers := []layer{
+		{p.methodImpl("segment", "Filer", "RecoverTail"), "types.VFS.OpenWriter"},
+		{p.methodImpl("fs", "FS", "OpenWriter"), "os.OpenFile"},
+	}
+	for _, l := range layers {
+		if l.fn == nil {
+			r.Unknown("anchor:"+l.cause, "?", "implementation not found for the layer above "+l.cause)
+			continue
+		}
+		isCause := func(v ssa.Value) bool {
+			if ex, ok := v.(*ssa.Extract); ok {
+				if c, ok := ex.Tuple.(*ssa.Call); ok && eventName(c) == l.cause && ex.Index == resultErrIndex(c.Call.Signature()) {
+					return true
+				}
+			}
+			return false
+		}
+		// the return(s) that hand the cause's failure upward: returns control-dependent on `cause err != nil`,
+		// or (direct `return f(...)`) returns whose operands are the call's results
+		n := 0
+		for ret, v := range returnedErrors(l.fn) {
+			relevant := false
+			if isCause(v) {
+				relevant = true
+			}
+			// failure branch of the cause's error test
+			for _, pred := range ret.Block().Preds {
+				if ifi, ok := pred.Instrs[len(pred.Instrs)-1].(*ssa.If); ok {
+					if bo, ok := ifi.Cond.(*ssa.BinOp); ok && bo.Op == token.NEQ && isCause(bo.X) && pred.Succs[0] == ret.Block() {
+						relevant = true
+					}
+				}
+			}
+			if !relevant {
+				continue
+			}
+			n++
+			ok, why := errorPreserved(v, isCause, 0)
+			r.Check(ok, funcDisplay(l.fn)+":"+l.cause+":error-identity", posOf(p, ret), "the error of "+l.cause+" is "+why,
+				fmt.Sprintf("%s turns the error of %s into a new error (%s): a missing tail file no longer satisfies errors.Is(err, os.ErrNotExist) in wal.Open, so the recreate-missing-tail path is dead and a crash between the metadata commit and the new file's directory fsync leaves the WAL unopenable", funcDisplay(l.fn), l.cause, why))
+		}
+		if n == 0 {
+			r.Unknown(funcDisplay(l.fn)+":"+l.cause+":error-identity", p.Position(l.fn.Pos()), "no return handing the failure of "+l.cause+" upward was found")
+		}
+	}
+}
